@@ -6,6 +6,11 @@ import os
 VERIF = os.path.dirname(os.path.dirname(os.path.abspath(__file__)))
 
 CLAIMED = {
+    "C07": dict(
+        engine="txn", category="model_checking", design_ref="DESIGN.md §7 C07",
+        technique="copies (import(export), to_memory, save+open, open_in_memory) logged after every action of multi-session histories and validated by TLC against Mvcc.tla (mechanism enumeration or committed graph); plus bit-exact value-fidelity checks and child-process enumeration of truncated / bit-flipped snapshots",
+        text="Every graph reachable by the generated histories (committed and open transactions, deleted entities, sparse ids) is copied through every path; TLC checks each copy against the model, that the copies agree, that export is byte-deterministic and the source unchanged. Graphs carrying every value type are compared bit-exactly; every truncation and single-bit flip (strided on large snapshots in the quick tier) must give an error or a self-consistent database, never a panic or process death.",
+        note="Byte-fault positions are enumerated by the harness, not modelled. The wasm binding is out of scope. A copy taken while a transaction is open contains uncommitted work (known finding)."),
     "C08": dict(
         engine="query", category="model_checking", design_ref="DESIGN.md §7 C08",
         technique="TLA+ reference semantics QuerySem.tla (pattern bindings, Kleene WHERE, DISTINCT, aggregates, ORDER/SKIP/LIMIT) evaluated by TLC as the oracle for every (graph, abstract query) case; queries rendered to GQL and Cypher and executed on the real engine",
@@ -84,7 +89,7 @@ ENGINES = [
          kind_free_text="TLA+ per-critical-section models checked by TLC; harness `gv conc` (yield-point controller, schedule enumeration) and `gv txstress`"),
     dict(name="wal", path="spec/wal", serves_properties=["C05", "C06"],
          kind_free_text="TLA+ Wal.tla (+Trace_Wal) checked by TLC; Rust harness `gv wal` drives a persistent GrafeoDB, reads the cfg(grafeo_verif) WAL hook, builds crash images"),
-    dict(name="txn", path="spec/txn", serves_properties=["C01", "C02", "C03", "C04"],
+    dict(name="txn", path="spec/txn", serves_properties=["C01", "C02", "C03", "C04", "C07"],
          kind_free_text="TLA+ TxManager.tla and Mvcc.tla (+MC_/Gen_/Trace_ modules) checked by TLC; Rust harness `gv txm` records traces / replays TLC behaviours"),
 ]
 
